@@ -457,7 +457,19 @@ class Gen(object):
         w.update(self.weights)
         ops = sorted(k for k in w if not k.startswith('_') and w[k] > 0)
         op = r.choices(ops, [w[k] for k in ops])[0]
-        return unique_keys(getattr(self, op)(st))
+        return self.spell(unique_keys(getattr(self, op)(st)))
+
+    def spell(self, req):
+        """Now and then a consumer's uuid is written in upper case: the same
+        uuid, hence the same consumer."""
+        r = self.rnd
+        if req.get('op') in ('alloc_put', 'alloc_get', 'alloc_del') and r.random() < 0.08:
+            req['cspell'] = 'upper'
+        if req.get('op') in ('alloc_post', 'reshape'):
+            for e in req['entries']:
+                if r.random() < 0.08:
+                    e['cspell'] = 'upper'
+        return req
 
 
 def _last_wins(items, key):
